@@ -29,6 +29,9 @@ pub enum Case {
     Many(u64, u8),
     /// totality: one mutated input through every parser
     Hostile(Vec<u8>),
+    /// an input that is certainly not a valid key file / key list for the parsers of the mask
+    /// (bit 0 private DER, 1 public DER, 2 private auto, 3 public auto, 4 list of PEM public keys)
+    MustRefuse { data: Vec<u8>, what: String, parsers: u8 },
 }
 
 struct SeedRng(Rng, u8);
@@ -190,6 +193,67 @@ pub fn cases(ctx: &Ctx) -> Vec<Case> {
             for cut in 0..p.len() {
                 v.push(Case::Hostile(p[..cut].to_vec()));
             }
+        }
+    }
+    // certainly-invalid inputs. (1) key lists holding a well-formed PEM block that is not a public key
+    for i in 0..(if ctx.quick() { 40 } else { 400 }) {
+        let n = 1 + rng.usize_below(4);
+        let at = rng.usize_below(n + 1);
+        let mut text = String::new();
+        for j in 0..=n {
+            if j == at {
+                let (tag, der): (&str, Vec<u8>) = match i % 4 {
+                    0 => ("PRIVATE KEY", x_priv.clone()),
+                    1 => ("CERTIFICATE", x_pub.clone()),
+                    2 => ("PUBLIC KEYS", x_pub.clone()),
+                    _ => ("EC PRIVATE KEY", bases[2].clone()),
+                };
+                text.push_str(&pem(tag, &der, 64, "\n", true));
+            }
+            if j < n {
+                let mut d = PUB_X.to_vec();
+                d.extend_from_slice(&crate::c19::x25519_base(&rng.array32()));
+                text.push_str(&pem("PUBLIC KEY", &d, 64, "\n", true));
+            }
+        }
+        v.push(Case::MustRefuse { data: text.into_bytes(), what: "key-list-with-a-block-that-is-not-a-public-key".into(), parsers: 0b1_0000 });
+    }
+    // (2) BER encodings that are not DER of otherwise correct keys
+    for (bi, b) in bases.iter().enumerate() {
+        let private = bi % 2 == 0;
+        let mask: u8 = if private { 0b0_0101 } else { 0b1_1010 };
+        let mut forms: Vec<(&str, Vec<u8>)> = Vec::new();
+        // indefinite-length outer SEQUENCE, end-of-contents octets present
+        let mut t = vec![0x30, 0x80];
+        t.extend_from_slice(&b[2..]);
+        t.extend_from_slice(&[0, 0]);
+        forms.push(("indefinite-length-outer-sequence", t));
+        // indefinite-length AlgorithmIdentifier (30 05 06 03 2b 65 xx)
+        if let Some(pos) = b.windows(4).position(|w| w == [0x30, 0x05, 0x06, 0x03]) {
+            let mut t = b.clone();
+            t[pos + 1] = 0x80;
+            t.splice(pos + 7..pos + 7, [0u8, 0]);
+            t[1] += 2;
+            forms.push(("indefinite-length-algorithm-identifier", t));
+        }
+        if private {
+            // version INTEGER with a redundant leading zero: 02 01 00 -> 02 02 00 00
+            let mut t = b.clone();
+            t.splice(2..5, [0x02u8, 0x02, 0x00, 0x00]);
+            t[1] += 1;
+            forms.push(("integer-with-redundant-leading-zero", t));
+        } else {
+            // BIT STRING announcing one unused bit while that bit of the last byte is set
+            let mut t = b.clone();
+            let l = t.len();
+            t[11] = 0x01;
+            t[l - 1] |= 1;
+            forms.push(("bit-string-with-non-zero-unused-bits", t));
+        }
+        for (what, t) in forms {
+            v.push(Case::MustRefuse { data: t.clone(), what: format!("not-der:{what}"), parsers: mask & 0b0_1111 });
+            let tag = if private { "PRIVATE KEY" } else { "PUBLIC KEY" };
+            v.push(Case::MustRefuse { data: pem(tag, &t, 64, "\n", true).into_bytes(), what: format!("not-der-in-pem:{what}"), parsers: mask & 0b1_1100 });
         }
     }
     // structure-aware hostile DER: every length field is CONSISTENT, the contents are not what is expected
@@ -471,6 +535,21 @@ pub fn run_case(ctx: &mut Ctx, c: &Case) {
                 Ok(())
             });
             report(ctx, "pem-many", r, scen());
+        }
+        Case::MustRefuse { data, what, parsers } => {
+            ctx.eval(model::prng::fnv(data) ^ 0x5EF, true);
+            ctx.count("must_refuse_inputs");
+            match guarded(|| all_parsers(data)) {
+                Ok(res) => {
+                    let accepted: Vec<usize> = (0..5).filter(|i| parsers & (1 << i) != 0 && res[*i]).collect();
+                    if accepted.is_empty() {
+                        ctx.count("held:must-refuse");
+                    } else {
+                        ctx.violation("C18", &format!("accepted:{what}"), scen(), json!({"accepted_by_parsers": accepted, "input_hex": hex::encode(&data[..data.len().min(160)])}));
+                    }
+                }
+                Err((loc, msg)) => ctx.violation("C18", &format!("panic:{loc}:{}", msg_class(&msg)), scen(), json!({"panic": msg})),
+            }
         }
         Case::Hostile(data) => {
             ctx.eval(model::prng::fnv(data), true);
